@@ -277,7 +277,10 @@ fn wordy(tok: &str) -> bool {
 fn lit(n: i64, r: &mut Prng, st: &Style) -> String {
     assert!(n >= 0);
     if (r.below(100) as u32) < st.radix {
-        match r.below(5) {
+        match r.below(7) {
+            // leading zeros behind the prefix
+            5 => format!("0x{n:0>12x}"),
+            6 => format!("000{n:o}"),
             0 => format!("0x{n:x}"),
             1 => format!("0X{n:X}"),
             2 => {
@@ -672,10 +675,12 @@ pub struct Case {
     pub tags: Vec<&'static str>,
 }
 
-const VAR_NAMES: &[&str] = &["a", "b", "i", "j", "k", "m", "t", "v", "w", "n", "cnt", "_u", "x1", "endx", "loop1"];
-const IN_NAMES: &[&str] = &["A", "B", "D", "CLK", "EN", "S0", "IN_3", "ALU-~RESET", "é"];
+// some are spelled like words of the language that are NOT keywords in that position (`x`, `Z`: row entries; `ite`: a function)
+const VAR_NAMES: &[&str] = &["a", "b", "i", "j", "k", "m", "t", "v", "w", "n", "cnt", "_u", "x1", "endx", "loop1", "x", "Z", "ite", "N"];
+// header names may be spelled like keywords (the header has its own scanner), differ only in letter case, or extend one another
+const IN_NAMES: &[&str] = &["A", "B", "D", "CLK", "EN", "S0", "IN_3", "ALU-~RESET", "é", "loop", "X", "a", "AB", "end"];
 // `n` is also the implicit counter of `repeat`
-const OUT_NAMES: &[&str] = &["Q", "Y", "R", "DONE", "OUT", "q2", "Flag", "Σ", "n"];
+const OUT_NAMES: &[&str] = &["Q", "Y", "R", "DONE", "OUT", "q2", "Flag", "Σ", "n", "Z", "bits", "let", "C", "Q_out_q", "random"];
 const BI_NAMES: &[&str] = &["BUS", "IO", "P", "IO2", "BU"];
 
 fn is_while_counter(v: &str) -> bool {
@@ -688,7 +693,8 @@ fn is_ident(s: &str) -> bool {
         Some(c) if c.is_ascii_alphabetic() || c == '_' => {}
         _ => return false,
     }
-    cs.all(|c| c.is_ascii_alphanumeric() || c == '_')
+    const KEYWORDS: &[&str] = &["end", "loop", "repeat", "bits", "let", "resetRandom", "while", "declare", "program", "init", "memory", "def", "call"];
+    cs.all(|c| c.is_ascii_alphanumeric() || c == '_') && !KEYWORDS.contains(&s)
 }
 
 pub struct Gen<'a> {
